@@ -35,6 +35,8 @@ def faults_for(kind, auto=False):
         f += [F('dpa_nonbinary', FIRST), F('dpa_float_data', FIRST)]
     if kind in ('part', 'mia', 'tplb'):
         f.append(F('class_float_data', ANY))          # refused by the class lookup inside _update, also as very first call (after _initialize)
+    if kind in ('part', 'mia'):
+        f.append(F('traces_kernel_refused', ANY))     # a trace dtype the compiled accumulation kernel has no version for: refused by the kernel call itself, after every Python-level guard
     if kind == 'tplb':
         f.append(F('tpl_two_words', ANY))
     if kind in ('tplm', 'tpld'):
@@ -70,6 +72,8 @@ def inject(ad, fault, rows, pos):
         args = (t, d.astype('float64'))
     elif name == 'class_float_data':
         args = (t, (d % 8).astype('float64'))          # small values: a class set derived from THIS batch would be the 9-class one
+    elif name == 'traces_kernel_refused':
+        args = (t.astype(['float16', '>i2', '>f4'][pos % 3]), d)
     elif name == 'tpl_two_words':
         args = (t, np.concatenate([d, d], axis=1))
     elif name == 'match_wrong_trace_size':
